@@ -560,7 +560,14 @@ impl<'a> Model<'a> {
             // simulated tree itself, not from the history: a later include of the same path
             // would otherwise be mistaken for this one)
             let truth = self.ground_truth(&target);
-            let recursive = truth.as_ref().is_some_and(|t| self.chain.contains(t));
+            // A path that names nothing (e.g. `a.inc/`) can still be recognised as an open
+            // file by comparing paths component-wise, which ignores a trailing slash and `.`
+            // components; a front end that does so refuses without reading. Predicting this
+            // keeps the walk in step; if the prediction is wrong the search over `choices` in
+            // `oracle::judge` still finds a consistent explanation.
+            let spelled_like_open = truth.is_none()
+                && self.chain.iter().any(|c| Path::new(c) == Path::new(&target));
+            let recursive = truth.as_ref().is_some_and(|t| self.chain.contains(t)) || spelled_like_open;
             let next_reads_target = matches!(next, Some(c) if c.op == Op::Read && c.path == target);
             // A target that names nothing in the tree may be read (the read fails) or refused
             // without a read; if the next call happens to be a read of that very path it may
